@@ -337,10 +337,14 @@ CLAIMED = {
         "inversion_matrix and swapping_matrix are the s x s transposition permutation; the VTB network without options is "
         "vtb_bind, with unbind_right it is bind(left, rinv right), with unbind_left it is sqrt(s) W^T X, both options are "
         "rejected; the TVTB network is sqrt(s) A B, sqrt(s) A B^T and sqrt(s) X^T W respectively - by C08 these return y "
-        "exactly when x is unitary and are their bilinear extension otherwise. PARTIAL: the HRR CircularConvolution network "
-        "(cos/sin DFT tables) is not executable over a ring; it is tied on the complete basis for every tested d (1..9, "
-        "thorough 1..24) under all four option settings, which with bilinearity of the network shape settles all inputs of "
-        "those d only. Tie: MatrixMult shapes up to 3 (5), VTB/TVTB d in {1,4,9} (+16,25), network and spa.Bind, all "
+        "exactly when x is unitary and are their bilinear extension otherwise. The HRR CircularConvolution network is proved for "
+        "every d over the complex numbers of any real closed field (Theory/HrrNet.v: half-spectrum products of Re / Im parts with "
+        "weights 1 / 2 recombined with the inverse-transform rows = circular convolution, given a primitive d-th root of unity; "
+        "the rows remove_imag_rows targets multiply identically vanishing quantities). PARTIAL: that the implementation's three "
+        "matrices are those tables is checked numerically row by row for d = 1..32 (thorough 1..128), and its output on the "
+        "complete basis for every tested d (1..9, thorough 1..24) under all four option settings; invert_a / invert_b (correlation) "
+        "are tied, not proved. Tie: MatrixMult shapes up to 3 (5), VTB/TVTB d in {1,4,9} (+16,25), network, spa.Bind and Bind "
+        "configured through config, all "
         "option sets, unitary x with basis y, linearity probes. One defect (TVTB unbind_left) found and repaired.",
         "Trusted: Coq kernel + vm_compute; Model/Nets.v; Nengo Direct-mode semantics (products exact, connections deliver "
         "transform * value, unfiltered connections act in the same step); harness.",
